@@ -24,6 +24,7 @@ RULE = ("scenarios of 1..6 overlapping DEN requests (emergency-vehicle applicati
 ASSUMPTIONS = ["virtual sleep: the repetition threads are real, their sleeps are released in wake-up order by the harness; a 20 s wall-clock watchdog ends a run as inconclusive",
                "the emergency-vehicle application's fixed 1 s interval is varied by setting its public attribute before triggering"]
 REQUIRED_COUNTERS = ["events", "denms", "schedules_compared", "multi_message_schedules", "action_id_pairs_compared", "received_denms_in_ldm_checked",
+                     "denms_of_moving_events_judged",
                      "S.schedules", "S.preempted_schedules", "S.event_schedules_judged"]
 
 
@@ -112,6 +113,17 @@ def gen(rng):
         ev.append({"kind": kind, "at": round(rng.choice((0.0, 0.0, 0.05, 0.3, 1.0, 2.5, rng.uniform(0, 5))), 3), "interval_ms": rng.choice((100, 250, 1000, 1000, 3000, 10000, rng.randrange(100, 10001))),
                    "duration_ms": rng.choice((0, 100, 999, 1000, 1001, 2500, 10000, 60000, rng.randrange(0, 60001))), "lat": lat, "lon": lon, "alt": rng.choice((None, 0.0, 123.4, -50.0))})
     ev.sort(key=lambda e: e["at"])
+    # the application keeps ONE emergency-vehicle service object and triggers it again at a new GNSS fix while the earlier
+    # event is still repeating: the shared request position moves under the running repetition
+    last_em = None
+    for k, e in enumerate(ev):
+        if e["kind"] != "emergency":
+            continue
+        if last_em is not None and rng.random() < 0.4:
+            root = ev[last_em].get("reuse_of", last_em)
+            e["reuse_of"] = root
+            e["interval_ms"], e["duration_ms"] = ev[root]["interval_ms"], ev[root]["duration_ms"]
+        last_em = k
     return {"station_id": rng.randrange(1, 1 << 32), "events": ev}
 
 
@@ -136,6 +148,8 @@ def run_case(c, res):
         den = types.SimpleNamespace(denm_transmission_management=tm)
         t_base = clock.t
         marks = []
+        svcs = {}
+        pos_hist = {}      # root event index -> [(virtual time, lat, lon)] positions the application put into the shared request
         ctx = {"scenario": c}
         for i, ev in enumerate(c["events"]):
             if not ls.run_until(t_base + ev["at"]):
@@ -148,8 +162,14 @@ def run_case(c, res):
             res.count("events")
             try:
                 if ev["kind"] == "emergency":
-                    svc = EmergencyVehicleApproachingService(den, duration=ev["duration_ms"])
-                    svc.denm_interval = ev["interval_ms"]
+                    root = ev.get("reuse_of", i)
+                    if root == i:
+                        svc = svcs[i] = EmergencyVehicleApproachingService(den, duration=ev["duration_ms"])
+                        svc.denm_interval = ev["interval_ms"]
+                    else:
+                        svc = svcs[root]
+                        res.count("retriggers_of_a_running_service")
+                    pos_hist.setdefault(root, []).append((clock.t, int(ev["lat"] * 1e7), int(ev["lon"] * 1e7)))
                     svc.trigger_denm_sending(tpv)
                 else:
                     rp = ReferencePosition(latitude=int(ev["lat"] * 1e7), longitude=int(ev["lon"] * 1e7), position_confidence_ellipse=PositionConfidenceEllipse(4095, 4095, 3601),
@@ -159,7 +179,8 @@ def run_case(c, res):
                 res.violation(f"C17:den-request-raises-{type(e).__name__}[{ev['kind']}]", f"{e!r}", ctx)
                 return
             # the new thread (if any) is identified by the thread list growth
-            marks.append({"ev": ev, "t0": clock.t, "thread": ls.threads[-1].name if ev["kind"] == "emergency" and ls.threads else None, "idx": i})
+            marks.append({"ev": ev, "t0": clock.t, "thread": ls.threads[-1].name if ev["kind"] == "emergency" and ls.threads else None, "idx": i,
+                          "root": ev.get("reuse_of", i)})
             if ev["kind"] == "emergency" and len(set(m["thread"] for m in marks if m["thread"])) != sum(1 for m in marks if m["thread"]):
                 res.inconc("could not attribute repetition threads to events")
                 return
@@ -230,8 +251,20 @@ def run_case(c, res):
                     res.violation("C17:denm-not-geo-broadcast-to-a-circle", f"{ptt}", {**ctx, "event": ev})
                 if rq.gn_area.latitude != ep["latitude"] or rq.gn_area.longitude != ep["longitude"] or rq.gn_area.a <= 0:
                     res.violation("C17:destination-circle-not-centred-on-event-position", f"area {rq.gn_area}, event position {ep['latitude']},{ep['longitude']}", {**ctx, "event": ev})
-                if abs(ep["latitude"] - int(ev["lat"] * 1e7)) > 1 or abs(ep["longitude"] - int(ev["lon"] * 1e7)) > 1:
-                    res.violation("C17:event-position-differs-from-request", f"{ep['latitude']},{ep['longitude']} vs {ev['lat']},{ev['lon']}", {**ctx, "event": ev})
+                if ev["kind"] == "emergency":
+                    # the request's position is the one the application last wrote into it (the service object is shared
+                    # by its re-triggers); a write at the very instant of a repetition may or may not be seen
+                    hist = pos_hist[m["root"]]
+                    before = [h for h in hist if h[0] <= r["t"] + 1e-9]
+                    allowed = {before[-1][1:]} | {h[1:] for h in hist if abs(h[0] - r["t"]) <= 1e-9}
+                    if len(before) > 1 and abs(before[-1][0] - r["t"]) <= 1e-9:
+                        allowed.add(before[-2][1:])
+                    if len(hist) > 1:
+                        res.count("denms_of_moving_events_judged")
+                else:
+                    allowed = {(int(ev["lat"] * 1e7), int(ev["lon"] * 1e7))}
+                if not any(abs(ep["latitude"] - a[0]) <= 1 and abs(ep["longitude"] - a[1]) <= 1 for a in allowed):
+                    res.violation("C17:event-position-differs-from-request", f"{ep['latitude']},{ep['longitude']} vs {sorted(allowed)}", {**ctx, "event": ev})
             if len(ids) > 1:
                 res.violation("C17:action-identifier-changes-within-an-event", f"{sorted(ids)}", {**ctx, "event": ev})
             if ids:
